@@ -85,7 +85,7 @@ for _p in ("C13",):
         _r["shards"] = {"quick": 8, "thorough": 16}
 
 RULES = {
-    "C07": "Each build of the working tree (sse2, scalar-math, +fma,+avx2; core-simd and target-cpu=native in thorough) records the same seeded workload into a trace: every registry entry that involves one of the eight SIMD-backed types (524 entries: inherent functions, operators, conversions, Display/Debug) called on finite inputs, each call re-executed 6 times on inputs moved by <= 2 ulp (conditioning probe), plus random programs of 2-8 operations chained through a typed value pool. An offline comparator walks pairs of traces in lock-step: SIMD vs scalar (and core-simd): |a - b| <= 16 x measured sensitivity + 4 eps |value| per float word, discrete outcomes (bool / Option / index) equal unless they flip under the 2-ulp perturbations (boundary), Debug/Display text hash equal whenever the values are bit-equal; sse2 vs +fma / native: every word of every record, including the chained programs, bit-for-bit (NaN sign/payload excepted: unspecified in Rust). Events = records compared; distinct = entries.",
+    "C07": "Each build of the working tree (sse2, scalar-math, +fma,+avx2; core-simd and target-cpu=native in thorough) records the same seeded workload into a trace: every registry entry that involves one of the eight SIMD-backed types (524 entries: inherent functions, operators, conversions, Display/Debug) called on finite inputs, each call re-executed 8 times on inputs moved by up to 64 ulp (conditioning probe), plus random programs of 2-8 operations chained through a typed value pool. An offline comparator walks pairs of traces in lock-step: SIMD vs scalar (and core-simd): |a - b| <= (largest change under the 64-ulp perturbations) + 32 eps x (largest input scalar / output lane of the call) per float word, discrete outcomes (bool / Option / index) equal unless they flip under the perturbations (boundary), Debug/Display text hash equal whenever the values are bit-equal; sse2 vs +fma / native: every word of every record, including the chained programs, bit-for-bit (NaN sign/payload excepted: unspecified in Rust). Events = records compared; distinct = entries.",
     "C08": "Twin execution: every registry entry that takes or returns a Vec3A, Mat3A, Affine3A or BVec3A (261 entries: own methods, operators, Sum/Product, PartialEq, Hash, Display/Debug, From impls, and functions of Quat / Mat4 / Mat3 / Affine3A taking them) is executed on arguments with bit-identical visible lanes whose hidden fourth lane holds each of {0, 1, -1, 3e38, min subnormal, +inf, -inf, quiet NaN, signalling NaN, all-ones} injected through three public routes (Vec3A::from_vec4, a computed register, From<raw register>; masks through comparisons of such vectors), on ordinary and special-value visible lanes; all captured visible outputs (lanes, scalars, bools, Options, strings, hashes, bitmasks) must be bit-identical to the run with the natural hidden lane. Plus random programs of 2-6 such operations chained through a typed value pool so that hidden lanes computed by glam itself feed later operations. Every event is one poisoned execution; distinct = (entry, poison, route, input mode).",
     "C18": "Events: (1) panic monitor - every entry of the generated registry (all 1530 public inherent functions, operator / Neg / Index / PartialEq / Sum / Product / Display / From impls of the float vector, quaternion, matrix, affine and SIMD mask types) called under catch_unwind with each scalar argument slot in turn set to special-value lattice values (zero, -0, subnormal, tiny, huge, +-inf, NaNs) plus random lattice tuples and ordinary values; indices in range and slices long enough, so any panic is undocumented; (2) slice monitor - from_slice / write_to_slice / from_cols_slice / write_cols_to_slice of 29 types with every length 0..N+4 on sentinel windows and exactly sized heap slices: success reads/writes exactly the first N elements, short slices panic and leave the destination bit-identical; (3) Index/IndexMut, col/row/col_mut, test/set with indices 0..7 and usize::MAX; (4) pointer-cast conversions of the SIMD types; the same workload under AddressSanitizer (exact-size heap buffers), Miri (one call of each of the SIMD-type entries plus slices) and, in thorough, valgrind memcheck on the optimised binary. distinct = distinct (entry, hot slot, round class).",
     "C10": "Events: scale / rotation / translation triples with |scale| in [1e-3,1e3], every sign pattern (8 in 3-D, 4 in 2-D), rotations from the structured unit-quaternion generator (all four matrix->quaternion branches), translations over 16 decades. Compose: every SRT constructor of Mat4/DMat4, Affine3A/DAffine3, Affine2/DAffine2, Mat3/Mat3A (2-D), Mat2 and the product of glam's elementary constructors vs the double-double T*R*S (8 eps |s_c| per entry, translation bit-exact). Decompose: translation = last column bit-exact, unit rotation, |scale| = column lengths, negative x scale iff det < 0, recomposition reproduces the input (32 eps |s_c|). Cells (sign pattern x branch) are tabulated; an empty cell makes the run inconclusive.",
